@@ -107,10 +107,11 @@ def run_shard(ctx, K=None):
     # feedback: cases whose trace reached line 7 (rare under uniform sampling) are kept and mutated
     pool = [c for c in POOL]
     budget = ctx.share({"quick": 6000, "thorough": 60000}[ctx.tier])
-    fb = {"line7_cases": 0, "line7_then_line6": 0}
+    fb = {"line7_cases": 0, "line7_then_line6": 0, "line7_twice": 0}
+    deep: list = []  # cases whose trace passes line 7 twice (7 -> 2 -> 7): rarer still, mutated preferentially
     for i in range(budget):
         if pool and rng.random() < 0.85:
-            gd, q = rng.choice(pool)
+            gd, q = rng.choice(deep) if deep and rng.random() < 0.5 else rng.choice(pool)
             gd = gg.mutate(gd, rng)
             if rng.random() < 0.3:
                 q2 = gq.random_query(rng, gd)
@@ -128,6 +129,12 @@ def run_shard(ctx, K=None):
             fb["line7_cases"] += 1
             if "id.line6" in tg[tg.index("id.line7"):]:
                 fb["line7_then_line6"] += 1
+            if list(tg).count("id.line7") >= 2:
+                fb["line7_twice"] += 1
+                if len(deep) < 200:
+                    deep.append((gd, q))
+                else:
+                    deep[rng.randrange(len(deep))] = (gd, q)
             if len(pool) < 400:
                 pool.append((gd, q))
             else:
